@@ -724,6 +724,13 @@ pub fn cmd(args: &Args) -> Report {
                 rep.violation(&format!("C08/run-time-hop-{kind}"), &detail, json!({"driver": "desmon", "sub": "c07", "runtime_connect_probe": true}));
             }
         }
+        if rep_cases % 200 == 101 {
+            // the two directions of a hop are independent: a message sent the other way while the hop transmits
+            rep.count("hops_with_traffic_in_both_directions_at_once", 1);
+            for (_, detail) in crate::c07::duplex_probe(&mut rng).into_iter().take(1) {
+                rep.violation("C08/both-directions-at-once", &detail, json!({"driver": "desmon", "sub": "c07", "duplex_probe": true}));
+            }
+        }
         rep_cases += 1;
         rep.count("deliveries_checked", obs.deliveries);
         rep.count("chain_walks_checked", obs.walks);
